@@ -51,6 +51,7 @@ def one_run(hist, conf, mode, vkind, interval):
     run = D.run_tuner(c, script, scheduler=sched, values=vals, store=store, keep_dir=True)
     tuner, backend = run["tuner"], run["backend"]
     ev = []
+    cfgx = [e.get("cfgx", -1) for e in run["ev"] if e["a"] == "Result"]      # configuration the result was delivered with
     for e in run["ev"]:
         if e["a"] == "Fetch":
             for (t, r, i) in e["res"]:
@@ -61,14 +62,16 @@ def one_run(hist, conf, mode, vkind, interval):
     path = experiment_path(tuner_name=tuner.name)
     try:
         rows = [[int(r["trial_id"]), tok(r["m"]), r["st_decision"]] for r in store.results]
-        cfgok = all(r.get("config_x") == int(r["trial_id"]) and "st_tuner_time" in r and "st_status" in r
-                    for r in store.results)
+        # every row carries the full configuration of its trial AT THE TIME of the result (a resumed trial may have a new one)
+        cfgok = len(cfgx) == len(store.results) and all(
+            r.get("config_x") == cx and r.get("config_epochs") == 99 and "st_tuner_time" in r and "st_status" in r
+            for r, cx in zip(store.results, cfgx))
         rowsback, bestL = rows, -2
         csv = os.path.join(str(path), "results.csv.zip")
         if os.path.exists(csv) and rows:
             df = pd.read_csv(csv)
             rowsback = [[int(a), tok(float(b)), str(c_)] for a, b, c_ in zip(df["trial_id"], df["m"], df["st_decision"])]
-            cfgok = cfgok and all(int(a) == int(b) for a, b in zip(df["config_x"], df["trial_id"]))
+            cfgok = cfgok and len(df) == len(cfgx) and all(int(a) == int(b) for a, b in zip(df["config_x"], cfgx))
             try:
                 from syne_tune.experiments import load_experiment
                 # metadata.json is written by the tuner; the loaded experiment ranks the rows of the table
@@ -131,7 +134,7 @@ def run(rep, tier, seed):
     n = 60 if tier == "quick" else 600
     traces, meta = [], []
     k = 0
-    for name in ("pause", "stop", "pause_nofail"):
+    for name in ("pause", "stop", "pause_nofail", "nw1"):
         gen, conf = T.generate(name, seed * 100 + 71 + k, n, minlen=140, depth=420)
         for gi, g in enumerate(gen):
             mode = "min" if (gi + k) % 2 == 0 else "max"
